@@ -56,6 +56,9 @@ type Env struct {
 	Mgr     *manifest.Manager
 	St      *store.Store
 	Applier func(*pb.RaftCmdRequest) (*pb.RaftCmdResponse, error)
+	// RewriteThreshold > 0 is passed to manifest.SetRewriteThreshold on every (re)open: with a tiny
+	// value the manifest rewrites itself (snapshot into a new file) after every edit.
+	RewriteThreshold int64
 }
 
 // Open opens (or reopens) the manifest in dir and builds a store from it. No peers are started.
@@ -115,7 +118,20 @@ func (e *Env) Restart() (*Env, error) {
 	if err := e.Shutdown(); err != nil {
 		return nil, err
 	}
-	return Open(e.Dir, e.Applier)
+	next, err := Open(e.Dir, e.Applier)
+	if err != nil {
+		return nil, err
+	}
+	next.SetRewriteThreshold(e.RewriteThreshold)
+	return next, nil
+}
+
+// SetRewriteThreshold configures the manifest's automatic rewrite (0 keeps the default).
+func (e *Env) SetRewriteThreshold(n int64) {
+	e.RewriteThreshold = n
+	if n > 0 {
+		e.Mgr.SetRewriteThreshold(n)
+	}
 }
 
 // Resume restarts a peer for every Running region of the reloaded catalog.
